@@ -121,7 +121,7 @@ func nthrootCase(bits int) *sigCase[*nthroot.Statement[*modular.SimpleModulus], 
 	)
 	sk := paillierKey("general", bits)
 	g := sk.Public().Group()
-	c := &sigCase[X, W, A, St, Z]{name: fmt.Sprintf("nthroot/%d", bits), heavy: true}
+	c := &sigCase[X, W, A, St, Z]{name: fmt.Sprintf("nthroot/%d", bits), heavy: true, unitMS: 6}
 	c.mk = func(rng io.Reader) sigma.Protocol[X, W, A, St, Z] { return must(nthroot.NewProtocol(g, rng)) }
 	var insts memo[[2]any]
 	c.inst = func(i int) (X, W) {
@@ -155,17 +155,17 @@ func rangeCase(bits int) *sigCase[*paillierrange.Statement, *paillierrange.Witne
 	)
 	sk := paillierKey("general", bits)
 	pk := sk.Public()
-	l := natPlus(new(big.Int).Lsh(big.NewInt(1), 128)) // q/3-style bound: x in [l, 2l)
-	c := &sigCase[X, W, A, St, Z]{name: fmt.Sprintf("range/%d", bits), heavy: true}
+	l := natPlus(new(big.Int).Lsh(big.NewInt(1), 128)) // range parameter l: honest x in [0, l)
+	c := &sigCase[X, W, A, St, Z]{name: fmt.Sprintf("range/%d", bits), heavy: true, unitMS: 480}
 	c.mk = func(rng io.Reader) sigma.Protocol[X, W, A, St, Z] {
 		return must(paillierrange.NewPaillierRange(128, l, pk, rng))
 	}
 	var insts memo[[2]any]
 	c.inst = func(i int) (X, W) {
 		v := insts.get(fmt.Sprint(i), func() [2]any {
-			// x in [l, 2l): l + fixed offset
+			// honest witnesses lie in [0, l)
 			off := new(big.Int).SetBytes(take(stream(fmt.Sprintf("range/x%d", i)), 15))
-			xv := must(num.N().FromBig(new(big.Int).Add(l.Big(), off)))
+			xv := must(num.N().FromBig(off))
 			x := must(paillier.NewPlaintextFromNat(xv, pk.PlaintextGroup().Modulus()))
 			r := pNonce(pk, fmt.Sprintf("range/%d/r%d", bits, i))
 			ct := must(pk.EncryptWithNonce(x, r))
@@ -193,7 +193,7 @@ func encCase(bits int) *sigCase[*enc.Statement, *enc.Witness, *enc.Commitment, *
 	)
 	pk := paillierKey("general", bits).Public()
 	rp := ringPedersen(bits, 0).Export()
-	c := &sigCase[X, W, A, St, Z]{name: fmt.Sprintf("cggmp21-enc/%d", bits), heavy: true}
+	c := &sigCase[X, W, A, St, Z]{name: fmt.Sprintf("cggmp21-enc/%d", bits), heavy: true, unitMS: 22}
 	c.mk = func(rng io.Reader) sigma.Protocol[X, W, A, St, Z] {
 		return must(enc.NewProtocol(pk, rp, 128, 256, rng))
 	}
@@ -246,7 +246,7 @@ func encelgCase(bits int) *sigCase[*encelg.Statement[kP, kB, kS], *encelg.Witnes
 	rp := ringPedersen(bits, 0).Export()
 	egSk := must(elgamal.NewSecretKey(curve.Generator(), e.sc("encelg/elgamal-sk")))
 	egKey := must(indcpacom.NewHomomorphicCommitmentKey(egSk.Public()))
-	c := &sigCase[X, W, A, St, Z]{name: fmt.Sprintf("cggmp21-encelg/%d", bits), heavy: true}
+	c := &sigCase[X, W, A, St, Z]{name: fmt.Sprintf("cggmp21-encelg/%d", bits), heavy: true, unitMS: 167}
 	c.mk = func(rng io.Reader) sigma.Protocol[X, W, A, St, Z] {
 		return must(encelg.NewProtocol[kP, kB, kS](rp, egKey, 256, 512, rng))
 	}
@@ -329,7 +329,7 @@ func affgCase(bits int) *sigCase[*affg.Statement[kP, kB, kS], *affg.Witness, *af
 		Z  = *affg.Response
 	)
 	rp := ringPedersen(bits, 0).Export()
-	c := &sigCase[X, W, A, St, Z]{name: fmt.Sprintf("cggmp21-affg/%d", bits), heavy: true}
+	c := &sigCase[X, W, A, St, Z]{name: fmt.Sprintf("cggmp21-affg/%d", bits), heavy: true, unitMS: 141}
 	c.mk = func(rng io.Reader) sigma.Protocol[X, W, A, St, Z] {
 		return must(affg.NewProtocol[kP, kB, kS](rp, 256, 1280, 512, k256.NewCurve(), rng))
 	}
@@ -362,7 +362,7 @@ func affgstarCase(bits int) *sigCase[*affgstar.Statement[kP, kB, kS], *affgstar.
 		St = *affgstar.State
 		Z  = *affgstar.Response
 	)
-	c := &sigCase[X, W, A, St, Z]{name: fmt.Sprintf("cggmp21-affgstar/%d", bits), heavy: true}
+	c := &sigCase[X, W, A, St, Z]{name: fmt.Sprintf("cggmp21-affgstar/%d", bits), heavy: true, unitMS: 5900}
 	c.mk = func(rng io.Reader) sigma.Protocol[X, W, A, St, Z] {
 		return must(affgstar.NewProtocol[kP, kB, kS](256, 1280, 512, k256.NewCurve(), rng))
 	}
@@ -399,7 +399,7 @@ func decCase(bits int) *sigCase[*dec.Statement[kP, kB, kS], *dec.Witness, *dec.C
 	)
 	curve := k256.NewCurve()
 	n0 := paillierKey("general", bits).Public()
-	c := &sigCase[X, W, A, St, Z]{name: fmt.Sprintf("cggmp21-dec/%d", bits), heavy: true}
+	c := &sigCase[X, W, A, St, Z]{name: fmt.Sprintf("cggmp21-dec/%d", bits), heavy: true, unitMS: 3800}
 	c.mk = func(rng io.Reader) sigma.Protocol[X, W, A, St, Z] {
 		return must(dec.NewProtocol[kP, kB, kS](256, 1280, 512, curve.Generator(), rng))
 	}
@@ -459,7 +459,7 @@ func facCase(bits int) *sigCase[*fac.Statement, *fac.Witness, *fac.Commitment, *
 		Z  = *fac.Response
 	)
 	rp := ringPedersen(bits, 0).Export()
-	c := &sigCase[X, W, A, St, Z]{name: fmt.Sprintf("cggmp21-fac/%d", bits), heavy: true}
+	c := &sigCase[X, W, A, St, Z]{name: fmt.Sprintf("cggmp21-fac/%d", bits), heavy: true, unitMS: 11}
 	c.mk = func(rng io.Reader) sigma.Protocol[X, W, A, St, Z] {
 		return must(fac.NewProtocol(rp, 128, 256, rng))
 	}
@@ -483,7 +483,7 @@ func blummodCase(bits int) *sigCase[*blummod.Statement, *blummod.Witness, *blumm
 		St = *blummod.State
 		Z  = *blummod.Response
 	)
-	c := &sigCase[X, W, A, St, Z]{name: fmt.Sprintf("cggmp21-blummod/%d", bits), heavy: true}
+	c := &sigCase[X, W, A, St, Z]{name: fmt.Sprintf("cggmp21-blummod/%d", bits), heavy: true, unitMS: 166}
 	c.mk = func(rng io.Reader) sigma.Protocol[X, W, A, St, Z] { return must(blummod.NewProtocol(rng)) }
 	c.inst = func(i int) (X, W) {
 		sk := paillierKey(keyFlavours[i], bits)
@@ -504,7 +504,7 @@ func prmCase(bits int) *sigCase[*prm.Statement, *prm.Witness, *prm.Commitment, *
 		St = *prm.State
 		Z  = *prm.Response
 	)
-	c := &sigCase[X, W, A, St, Z]{name: fmt.Sprintf("prm/%d", bits), heavy: true}
+	c := &sigCase[X, W, A, St, Z]{name: fmt.Sprintf("prm/%d", bits), heavy: true, unitMS: 43}
 	c.mk = func(rng io.Reader) sigma.Protocol[X, W, A, St, Z] { return must(prm.NewProtocol(rng)) }
 	c.inst = func(i int) (X, W) {
 		tk := ringPedersen(bits, i%3)
